@@ -40,7 +40,7 @@ def cases(tier, seed):
 
 def materialise(case):
     if case["kind"] == "assembly":
-        m = _embedded.materialise_assembly(case)
+        m = _embedded.materialise_assembly(case)   # (a materialised case has kind "assembly-mat" and is returned as it is below)
         # own stream: one feature in six has fuzzy end points (<5, >8, (5.8), 5^8, one-of(5,8)); they denote the same
         # nucleotides as exact positions and are inherited like any other feature
         rf = gen.rng_for(case["seed"], PROP, "fuzzy", case["enzyme"], case["i"])
